@@ -122,6 +122,40 @@ def check_state(rec, B, tg, tp, r, obs_g, obs_p, rng, bits=True, polys=2, dense_
             rec.check("query.pure.arg", np.array_equal(h2[0], hg) and np.array_equal(h2[1], hp) and np.allclose(h2[2], hc, atol=1e-7)
                       and ok2 and abs(_num(B, x2) - _num(B, x)) < 1e-6 * (1 + abs(_num(B, x))), case, nt_state,
                       expected="polynomial unchanged, same value on the second call", observed={"second": _num(B, x2) if ok2 else None})
+    # --- coefficients of any magnitude: the expectation is linear in them (relative, not absolute, accuracy)
+    for scale in (1e-12, 1e-34, 1e+9):
+        Lp = int(rng.integers(1, 4))
+        idx = rng.integers(0, len(obs_g), Lp)
+        gs_, ps_ = obs_g[idx].copy(), rng.integers(0, 4, Lp)
+        cs_ = (gen.rand_coeffs(rng, Lp) + 0.3) * scale
+        if B.name == "torch" and scale < 1e-30:
+            continue     # below complex64's range
+        wantc = np.trace(R @ O.dense_poly(gs_, ps_, cs_ / scale)) * scale
+        case = {"state": sc, "poly": [[O.show(g, p), c] for g, p, c in zip(gs_, ps_, cs_)], "scale": scale}
+        ok, x = rec.attempt("exp.poly.scale", case, lambda: S.expect(B.Poly(gs_, ps_, cs_)))
+        if ok:
+            rec.check("exp.poly.scale", abs(_num(B, x) - wantc) <= (1e-9 if B.name == "np" else 1e-4) * np.abs(cs_).sum(), case, nt_state and abs(wantc) > 0,
+                      expected=wantc, observed=_num(B, x))
+    # --- the observable is a live object too: asked, changed in place (rotation / map), asked again
+    Lp = int(rng.integers(1, 4))
+    idx = rng.integers(0, len(obs_g), Lp)
+    lg_, lp_, lc_ = obs_g[idx].copy(), rng.integers(0, 4, Lp), gen.rand_coeffs(rng, Lp)
+    Hl = B.Poly(lg_.copy(), lp_.copy(), lc_.copy())
+    cur = (lg_, lp_)
+    for stage in range(3):
+        wantc = np.trace(R @ O.dense_poly(cur[0], cur[1], lc_))
+        ok, x = rec.attempt("exp.poly.live", sc, lambda: S.expect(Hl))
+        if ok:
+            rec.check("exp.poly.live", abs(_num(B, x) - wantc) < 1e-5 * (1 + np.abs(lc_).sum()), {"state": sc, "stage": stage, "poly": [[O.show(g, p), c] for g, p, c in zip(cur[0], cur[1], lc_)]},
+                      nt_state, expected=wantc, observed=_num(B, x))
+        if stage == 0:
+            G, PG = gen.rand_nonid(rng, N), 2 * int(rng.integers(2))
+            Hl.rotate_by(B.Pauli(G, PG))
+            cur = O.rot_image(G, PG, cur[0], cur[1])
+        elif stage == 1:
+            mg_, mp_ = O.random_map(rng, N)
+            Hl.transform_by(B.Map(mg_, mp_))
+            cur = O.map_image_list(mg_, mp_, cur[0], cur[1])
     # --- overlaps with other states (pure receiver) / documented refusal (mixed receiver)
     for t in range(2):
         sg, sp, sr = O.random_tableau(rng, N) if t else (tg.copy(), tp.copy(), int(rng.integers(0, N + 1)))
